@@ -71,7 +71,7 @@ def kwstrip(case):
 def clspec(l, case):
     rules = coq_list([f'("{a}", "{b}")' for a, b in l.get('rules', [])])
     return (f'{{| l_name := {DN[l["d"]]}; l_rv := {cval(l.get("rv"))}; l_rules := {rules}; l_kwstrip := {kwstrip(case)}; '
-            f'l_dir := {coq_bool(l.get("dir", True))} |}}')
+            f'l_dir := {coq_bool(bool(l.get("dir", True)))} |}}')
 
 
 def ccall(c, method):
@@ -331,7 +331,7 @@ def gen_level(rng, d, sig, method, style):
             rules.append(['old0', rng.choice(names)])               # two rules for one keyword: the last one counts
         l['rules'] = rules
     if d == 'overrides':
-        l['dir'] = not (style != 'valid' and rng.random() < 0.5)
+        l['dir'] = False if (style != 'valid' and rng.random() < 0.5) else rng.choice([True, 'inherited'])
     return l
 
 
